@@ -1,5 +1,6 @@
 import YardlProofs.WireStream
 import YardlProofs.Batch
+import YardlProofs.BatchDest
 
 /-!
 # C17 — Stream contents do not depend on batching, and items are independent
@@ -37,6 +38,18 @@ theorem empty_batch_writes_nothing (t : Ty) (before after : List Nat) (items : L
     split
     · exact ih items
     · rw [ih]
+
+/-- **a batch read does not depend on what the destination vector held before**: `ReadBlocksIntoVector` handed a vector with any previous
+    contents (any length up to its capacity) delivers the items, and leaves the reader in the state, of a read into an empty vector -/
+theorem batch_read_ignores_previous_contents (s : BS) (cap : Nat) (dest : List Val) (hwf : s.Wf) (he : s.sawEnd = false) (hcap : 0 < cap)
+    (hd : dest.length ≤ cap) : s.readBatchInto cap dest = s.readBatch cap :=
+  BS.readBatchInto_eq s cap dest hwf he hcap hd
+
+/-- the hypotheses are met by a reader at the start of a stream of two blocks, and the destination really is overwritten -/
+example : (BS.init [2, 1] [.int 1, .int 2, .int 3]).Wf ∧
+    ((BS.init [2, 1] [.int 1, .int 2, .int 3]).readBatchInto 2 [.int 9]).1.length = 2 ∧
+    ((BS.init [2, 1] [.int 1, .int 2, .int 3]).readBatchInto 3 [.int 9, .int 9, .int 9]).1.length = 3 := by
+  refine ⟨⟨by decide, by decide, by intro h; cases h⟩, by decide, by decide⟩
 
 theorem any_read_schedule_is_a_prefix (ops : List BS.Op) (part : List Nat) (items : List Val)
     (hp : BS.partSum' part = items.length) (hpos : ∀ n ∈ part, 0 < n) (hok : BS.opsOk ops) :
